@@ -1,5 +1,6 @@
 import TV.Model.Middleware
 import TV.Model.ServerLifecycle
+import TV.Model.StopRetry
 import Driver.Proto
 /-! Driver components for the server (C17: routes/middleware/services; C18: start/stop scenarios). -/
 namespace Driver.Server
@@ -72,6 +73,23 @@ def scenarioFinals (n k : Nat) (ample ready : Bool) : List St :=
   | some s => explore 100000 [s] [] []
   | none => []
 
+open TV.StopRetry in
+/-- the retried Stop according to TV.StopRetry: `started` requests run on provider 0; a first Stop with an expired context walks
+    all providers and returns; then a Stop with an ample context.  Answer: (the second call cannot move while the requests run,
+    the error flag it returns, nothing is running when it returns, the first call reported an error). -/
+def retryPrediction (n started : Nat) : Option (Bool × Bool × Bool × Bool) :=
+  let s0 := init n (fun i => if i = 0 then started else 0)
+  match runActs s0 ([.stopCall false] ++ List.replicate (n + 1) .provStop ++ [.stopCall true]) with
+  | none => none
+  | some s1 =>
+    let blocked := (step? s1 .provStop).isNone
+    match runActs s1 (List.replicate started (.finishReq 0) ++ List.replicate (n + 1) .provStop) with
+    | some s2 =>
+      match s2.returned with
+      | [(true, err, left), (false, err1, _)] => some (blocked, err, left == 0, err1)
+      | _ => none
+    | none => none
+
 def step (cs : CaseSt) (op obs : String) : CaseSt × R :=
   let toks := words op
   let fs := fieldsOf toks
@@ -134,6 +152,12 @@ def step (cs : CaseSt) (op obs : String) : CaseSt × R :=
                  (errs.contains (some implErr) || (!ample && started == 0))
     let sorted := (ls.toArray.qsort (· < ·)).toList
     let g (key : String) := (getNat ofs key).getD 99
+    -- a retried Stop: what TV.StopRetry predicts for the second call has to be what was observed
+    let ltsOK := ltsOK && (getF fs "ctx" != some "retry" ||
+      (match retryPrediction ls.length started with
+       | some (blocked, err, idle, _) =>
+         implErr == err && (!(blocked && started > 0) || g "stopearly" == 0) && (!idle || g "completed" == started) && (blocked == (started > 0))
+       | none => false))
     let mon : List String :=
       (if g "startret" == 1 then [] else ["C18.start_returns"]) ++
       (if !ready || getF ofs "reachable" == some (showL sorted) then [] else ["C18.every_listener_reachable"]) ++
